@@ -132,6 +132,23 @@ class Unit:
                               "sha256": sha(lit), "rules_fired": {"const-literal": 1}, "diff_lines": 0, "diff": [], "literal": lit})
             return lit
         self.text = re.sub(r"@@const:(\w+)@@", const_sub, self.text)
+
+        # @@constexpr:NAME:REGEX[:uuidhex]@@ -> group(1) of REGEX matched against the constant's initializer text
+        def constexpr_sub(m):
+            name, rx, xf = m.group(1), m.group(2), m.group(3)
+            it = ix.find(name, kind="const", file_hint=sc.get("const_file_hint"))
+            s0, e0 = it["expr"]
+            init = "".join(ix.text(it["file"], s0, e0).split())
+            mm = re.fullmatch(rx, init)
+            if not mm:
+                raise Undecided(f"@@constexpr:{name}@@ initializer {init!r} does not have the expected shape {rx!r}")
+            val = mm.group(1)
+            if xf == "uuidhex":
+                val = "0x" + val.replace("-", "")
+            w.records.append({"path": name, "kind": "const-expr", "file": os.path.relpath(it["file"], REPO), "span": it["span"],
+                              "sha256": sha(init), "rules_fired": {"const-expr": 1}, "diff_lines": 0, "diff": [], "literal": val})
+            return val
+        self.text = re.sub(r"@@constexpr:(\w+):((?:[^@:]|:(?!uuidhex@@))+?)(?::(uuidhex))?@@", constexpr_sub, self.text)
         # clause line map
         for n, line in enumerate(self.text.split("\n"), 1):
             for m in re.finditer(r"/\*@(c\d+)\*/", line):
